@@ -104,6 +104,15 @@ CLAIMED = {
                   'type check in _make_request, a request stays outstanding until replied; framing of send/recv_packet(s).',
              ref='4/C14, 9', note='request handlers abstract; attribute codecs v3-v6 covered by an exhaustive bounded stand-in '
                   '(not counted); id uniqueness needs < 2^32 outstanding requests (precondition)'),
+ 'C15': dict(text='Proof of the FORMAT layer of key export/import: packet encoders vs SSHPacket decoders (byte-level round '
+                  'trips), per-key-type SSH public/private blob codecs (rsa, dsa, ecdsa, eddsa), export_private_key (PEM label and '
+                  'encryption decision agree for every passphrase incl. the empty one, OpenSSH container layout, padding 1,2,3.. to '
+                  'the block size, equal check words), export_public_key shapes, _decode_openssh_private/decode_ssh_public_key '
+                  'acceptance conditions with the comment returned verbatim and wrong passphrase => KeyEncryptionError, '
+                  '_parse_rfc4716/_parse_pem/_match_next on exporter-shaped text.',
+             ref='4/C15, 9', note='key material (PyCA), bcrypt, ciphers, pbe.py, base64 and der_encode are assumed contracts; '
+                  'DER, base64 armour and MPInt round trips are bounded stand-ins only (not counted); interoperability with '
+                  'OpenSSH/PyCA is argued through the shared format specs, wrong-passphrase rejection for PKCS#1/#8 PBE not claimed'),
  'C16': dict(text='Proof that SSHKey.verify never raises and accepts only String(alg)||rest with alg in THIS key class\'s own '
                   'algorithm set (per-class sets never shared or mutated), sign emits the layout verify parses; certificate '
                   'construct verifies exactly the consumed prefix ending in the CA key with the signature as last field and decodes '
@@ -143,7 +152,7 @@ for pid, c in CLAIMED.items():
         'quick_cmd': f'./check {pid} quick',
         'thorough_cmd': f'./check {pid} thorough',
         'evidence_file': f'/verif/evidence/{pid}.json',
-        'replay_cmd_template': 'cat {path}',
+        'replay_cmd_template': 'python3 tools/replay.py {path}',
         'engine': 'pyvc',
         'level_claimed': {'category': 'proof', 'text': c['text'], 'design_ref': c['ref']},
         'level_note': NOTE_COMMON + c['note'],
